@@ -467,7 +467,7 @@ pub fn run(ctx: &Ctx) -> Report {
                 picked.push(f);
             }
         }
-        for pf in picked {
+        for (pidx, pf) in picked.into_iter().enumerate() {
             let doc: Value = match serde_json::from_str(&pf.text) {
                 Ok(d) => d,
                 Err(_) => continue,
@@ -475,6 +475,7 @@ pub fn run(ctx: &Ctx) -> Report {
             let bi = bs.len();
             cases.push(Case { base: bi, desc: "parse: unmodified file".into(), class: "parse:honest".into(), value: doc.clone() });
             let n_cells = doc["public_input"]["public_memory"].as_array().map(|a| a.len()).unwrap_or(0);
+            let mut n_dyn_seen = 0usize;
             for l in jw::leaves(&doc) {
                 let ps = jw::path_str(&l);
                 if !(ps.starts_with("public_input") || ps.starts_with("proof_parameters")) || !jw::get(&doc, &l).map(|x| x.is_number()).unwrap_or(false) {
@@ -487,6 +488,13 @@ pub fn run(ctx: &Ctx) -> Report {
                     }
                 }
                 let dynp = ps.contains("dynamic_params");
+                if dynp && quick {
+                    // 340 parameters: every 8th in the quick tier
+                    n_dyn_seen += 1;
+                    if n_dyn_seen % 8 != 1 {
+                        continue;
+                    }
+                }
                 let menu: Vec<u64> = if dynp { vec![1 << 27, u32::MAX as u64, 1 << 40, u64::MAX] } else { vec![0, 1, 1 << 16, 1 << 22, 1 << 27, u32::MAX as u64, 1 << 32, 1 << 40, 1 << 63, u64::MAX] };
                 for m in menu {
                     let mut v = doc.clone();
@@ -498,6 +506,9 @@ pub fn run(ctx: &Ctx) -> Report {
             }
             bs.push(Base { name: pf.name.clone(), layout: "parse:".into(), value: Value::Null });
             // fourth subject: the parsed structure itself (serde form), its declared counts at extremes
+            if quick && pidx > 0 {
+                continue; // the serde form of the largest file is several MB per case: thorough tier only
+            }
             if let Ok(parsed) = swiftness_proof_parser::parse(pf.text.clone()) {
                 if let Ok(pv) = serde_json::to_value(&parsed) {
                     let bi = bs.len();
